@@ -201,8 +201,9 @@ func selectCurrentReplicaSet(daemonset *datadoghqv1alpha1.ExtendedDaemonSet, act
 	dsAnnotations := daemonset.GetAnnotations()
 	isEnded, requeueAfter = IsCanaryDeploymentEnded(daemonset.Spec.Strategy.Canary, upToDateRS, now)
 	isPaused, _ := IsCanaryDeploymentPaused(dsAnnotations, upToDateRS)
+	isFailed := IsCanaryDeploymentFailed(upToDateRS)
 	isValid := IsCanaryDeploymentValid(dsAnnotations, upToDateRS.GetName())
-	if isValid || (!isPaused && isEnded) {
+	if isValid || (!isPaused && !isFailed && isEnded) {
 		return upToDateRS, requeueAfter
 	}
 
